@@ -280,6 +280,40 @@ def leaf_contracts():
         modifies=["self.match", "child.g_to_value_calls"],
         ensures={"matches_iff_the_value_is_empty": "self.match == ufun_bool('is_empty', child.g_value)"},
         returns="none", property_clauses={"matches_iff_the_value_is_empty": "C01"}, **base))
+    # ---- a bare header as a match component: existence test (an empty cell does not exist), or its truth value under asbool
+    HDR = "csvpath/matching/productions/header.py"
+    cs.append(Contract(target=f"{HDR}::Header.to_value", interface=True, variant="as_a_value", types={"skip": "val"}, modifies=["self.g_to_value_calls"],
+                       ensures={"memoised": "same(result, self.g_value)"}, returns="expr:self.g_value", class_fields=CF,
+                       assumptions=["Header.to_value is under its own contracts in C06 (by_name / by_index): the cell under the header, stripped; None when absent"]))
+    cs.append(Contract(target=f"{EU}::ExpressionUtility.is_none", interface=True, variant="any_value", types={"v": "val"},
+                       ensures={"fn": "result == ufun_bool('is_none', v)", "none_is_none": "implies(v is None, result)"}, returns="bool", class_fields=CF,
+                       assumptions=["ExpressionUtility.is_none(v) is a function of v only and True for None (also 'None', 'nan', blank text: bounded in C01.bounded)"]))
+    cs.append(Contract(
+        target=f"{HDR}::Header.matches", types={"skip": "none", "self.match": "optbool", "self._qualifiers": "list[str]", "self.g_value": "val"}, requires=["self.match is None"],
+        modifies=["self.match", "self.g_to_value_calls"],
+        ensures={"existence_test": "implies('asbool' not in self._qualifiers, result == (not ufun_bool('is_none', self.g_value)))",
+                 "an_absent_cell_does_not_match": "implies('asbool' not in self._qualifiers and self.g_value is None, result == False)",
+                 "truth_value_under_asbool": "implies('asbool' in self._qualifiers, result == ufun_bool('asbool', self.g_value))"},
+        returns="optbool", callee_variants={"Header.to_value": "as_a_value", "ExpressionUtility.is_none": "any_value"},
+        property_clauses={"existence_test": "C01", "an_absent_cell_does_not_match": "C01,C06", "truth_value_under_asbool": "C01"},
+        **{**base, "native": {**NATIVE, "skip": True}}))
+    # ---- the two gates Function.matches consults (they are [A] interfaces there; here they are proved)
+    QUALF = "csvpath/matching/productions/qualified.py"
+    cs.append(Contract(target=f"{QUALF}::Qualified.override_frozen", interface=True, types={}, ensures={"flag": "result == self.g_overrides_frozen"}, returns="bool",
+                       class_fields={**CF, "Matchable": {**CF["Matchable"], "g_overrides_frozen": "bool"}},
+                       assumptions=["override_frozen() is True only for fail() and last() (two one-line overrides)"]))
+    cfq = {**CF, "Matchable": {**CF["Matchable"], "g_overrides_frozen": "bool"}}
+    cs.append(Contract(
+        target=f"{QUALF}::Qualified.do_onmatch", variant="body", types={"self": "obj:Matchable", "self._qualifiers": "list[str]", "self.name": "val"}, modifies=["self.g_line_matches_calls"],
+        ensures={"open_unless_onmatch_and_the_rest_of_the_line_does_not_match": "result == (('onmatch' not in self._qualifiers) or self.g_rest_matches)",
+                 "looks_ahead_only_under_onmatch": "implies('onmatch' not in self._qualifiers, self.g_line_matches_calls == old(self.g_line_matches_calls))"},
+        returns="bool", class_fields=cfq, macros=MACROS, native={**NATIVE, "skip": True}, inline=INL,
+        property_clauses={"open_unless_onmatch_and_the_rest_of_the_line_does_not_match": "C01,C14", "looks_ahead_only_under_onmatch": "C01"}))
+    cs.append(Contract(
+        target=f"{QUALF}::Qualified.do_frozen", variant="body", types={"self": "obj:Matchable"},
+        ensures={"frozen_iff_the_run_is_ending_and_not_overridden": "result == (self.matcher.csvpath._freeze_path and not self.g_overrides_frozen)"},
+        returns="bool", class_fields=cfq, macros=MACROS, native={**NATIVE, "skip": True}, inline=INL,
+        property_clauses={"frozen_iff_the_run_is_ending_and_not_overridden": "C01,C13"}))
     # ---- a variable as a match component: existence test, or its truth value under asbool
     CF["Variable"] = {**CF.get("Variable", {}), "value": "val", "match": "optbool", "name": "str", "_qualifiers": "list[str]"}
     vtypes = {"skip": "none", "self.value": "val", "self.match": "optbool", "self.name": "str", "self._qualifiers": "list[str]", "self.g_name_qualifier": "optstr"}
